@@ -63,6 +63,7 @@ Proof.
     + destruct (Nat.eqb _ 0); inversion St; subst; cbn; rewrite F; reflexivity.
     + destruct (sw s); inversion St; subst; cbn; rewrite F, <- app_assoc; reflexivity.
   - destruct (_ && _) in St; [|discriminate]. inversion St; subst; cbn. exact F.
+  - destruct (_ && _) in St; [|discriminate]. inversion St; subst; cbn. exact F.
   - destruct (rx s); try discriminate. destruct (_ || _) in St; [|discriminate].
     inversion St; subst; cbn. exact F.
   - destruct (rx s); try discriminate; inversion St; subst; cbn; exact F.
@@ -96,6 +97,8 @@ Proof.
     + destruct (sw s); inversion St; subst; cbn; rewrite !app_nil_r; split; reflexivity.
   - destruct (_ && _) in St; [|discriminate]. inversion St; subst; cbn.
     rewrite !app_nil_r; split; reflexivity.
+  - destruct (_ && _) in St; [|discriminate]. inversion St; subst; cbn.
+    rewrite !app_nil_r; split; reflexivity.
   - destruct (rx s); try discriminate. destruct (_ || _) in St; [|discriminate].
     inversion St; subst; cbn. rewrite !app_nil_r; split; reflexivity.
   - destruct (rx s); try discriminate; inversion St; subst; cbn; rewrite !app_nil_r; split; reflexivity.
@@ -124,6 +127,7 @@ Proof.
     inversion St; subst; cbn. tauto.
   - destruct (_ && _) in St; [|discriminate].
     destruct (buf s); [destruct (Nat.eqb _ 0)|destruct (sw s)]; inversion St; subst; cbn; tauto.
+  - destruct (_ && _) in St; [|discriminate]. inversion St; subst; cbn. tauto.
   - destruct (_ && _) in St; [|discriminate]. inversion St; subst; cbn. tauto.
   - destruct (rx s) eqn:E; try discriminate. destruct (_ || _) in St; [|discriminate].
     inversion St; subst; cbn. split; [discriminate|intros [_ H]; discriminate].
@@ -190,6 +194,8 @@ Proof.
         (split; [intros rs fin ws r E; discriminate|]); intros r ws E; inversion E; subst;
         (split; [discriminate|]); intros [Eq _]; rewrite F in Eq;
         apply (f_equal (@length item)) in Eq; rewrite app_length in Eq; cbn in Eq; lia.
+  - destruct (_ && _) in St; [|discriminate]. inversion St; subst.
+    split; intros; discriminate.
   - destruct (_ && _) in St; [|discriminate]. inversion St; subst.
     split; intros; discriminate.
   - destruct (rx s); try discriminate. destruct (_ || _) in St; [|discriminate].
